@@ -208,6 +208,8 @@ struct St {
     change_points: Vec<u64>,
     boost: Vec<u8>,
     preempted: Vec<bool>,
+    /// fairness: how many times in a row the same thread was chosen
+    streak: (usize, u32),
     stmt_points: bool,
     max_steps: u64,
     replay: Option<Vec<u8>>,
@@ -267,6 +269,7 @@ pub fn sim() -> &'static Sim {
                 change_points: vec![],
                 boost: vec![],
                 preempted: vec![],
+                streak: (usize::MAX, 0),
                 stmt_points: false,
                 max_steps: 0,
                 replay: None,
@@ -399,6 +402,33 @@ impl Sim {
                     }
                 }
             }
+        };
+        // Eventual fairness (generation only): no strategy may starve the
+        // other runnable threads for ever — a thread that legitimately
+        // spin-waits for another one would otherwise exhaust the step budget
+        // under "run the highest priority / the current thread" policies and
+        // be reported as a livelock.
+        let pick = if st.replay.is_none() && runnable.len() > 1 {
+            if st.streak.0 == pick {
+                st.streak.1 += 1;
+            } else {
+                st.streak = (pick, 1);
+            }
+            if st.streak.1 > 400 {
+                let others: Vec<usize> = runnable.iter().copied().filter(|t| *t != pick).collect();
+                let forced = others[st.rng.below(others.len() as u64) as usize];
+                st.streak = (forced, 1);
+                if let Strategy::Pct(_) = st.strategy {
+                    // demote the starving thread's rival for good
+                    let low = st.prio.iter().copied().min().unwrap_or(0);
+                    st.prio[pick] = low.saturating_sub(1);
+                }
+                forced
+            } else {
+                pick
+            }
+        } else {
+            pick
         };
         if pick < st.preempted.len() && st.preempted[pick] && pick != me {
             st.preempted[pick] = false;
@@ -543,6 +573,7 @@ impl Sim {
                 change_points,
                 boost: vec![0; n],
                 preempted: vec![false; n],
+                streak: (usize::MAX, 0),
                 stmt_points: cfg.stmt_points,
                 max_steps: cfg.max_steps,
                 replay: cfg.replay,
